@@ -142,6 +142,8 @@ for _pid, _spec in PROPS.items():
         _spec['scenarios'].append(('bulk', 300, 3000, ''))
 
 
+PROPS['C18'].setdefault('thorough_reps', 8)
+PROPS['C20'].setdefault('thorough_reps', 8)
 for _scn in ['recvmatrix', 'depmatrix', 'replace', 'registry', 'attesters', 'bulk']:
     if _scn not in set(sc[0] for sc in PROPS['C20']['scenarios']):
         PROPS['C20']['scenarios'].append((_scn, 400, 4000, ''))
